@@ -2378,7 +2378,9 @@ void CDNS::CdnsBlockRead::read(CdnsDecoder& dec, std::vector<BlockParameters>& b
                 dec.read_array([this](CdnsDecoder& dec){
                     AddressEventCount tmp;
                     tmp.read(dec);
-                    m_address_event_counts[tmp] = tmp.ae_count;
+                    uint64_t count = tmp.ae_count;
+                    tmp.ae_count = 0;
+                    m_address_event_counts[tmp] += count;
                 });
                 break;
             case get_map_index(BlockMapIndex::malformed_messages):
